@@ -121,7 +121,7 @@ theorem fused_ranges_safe (s : Schedule) (hwf : consumersTruthful s = true) (k :
     ∀ (j : Nat) (op' : SchedOp), s.ops[j]? = some op' → op'.readsId x.id = true → j = k := by
   -- the selected input is one of the operation's inputs and has at most one consumer
   have hsel : x.consumers ≤ 1 ∧ x ∈ op.readTensors ∧ (op.fuse.memcpy = false → x.writeProtected = false) := by
-    unfold ifmToFuse at hf
+    unfold ifmToFuse ifmToFuseP at hf
     split at hf
     · split at hf
       · simp only [Option.some.injEq, Option.map_eq_some_iff] at hf
@@ -129,8 +129,8 @@ theorem fused_ranges_safe (s : Schedule) (hwf : consumersTruthful s = true) (k :
         have hcand := List.find?_some hp
         have hmem := List.mem_of_find?_eq_some hp
         subst hpx
-        simp only [candidateOk, Bool.and_eq_true, beq_iff_eq, Bool.not_eq_true'] at hcand
-        refine ⟨by omega, ?_, fun _ => hcand.1.1.1.1.1.2⟩
+        simp only [candidateOkP, Bool.and_eq_true, beq_iff_eq, Bool.not_eq_true'] at hcand
+        refine ⟨by omega, ?_, fun _ => hcand.1.1.1.1.1.1.2⟩
         simp only [FuseInfo.inps, List.mem_append] at hmem
         simp only [SchedOp.readTensors, List.mem_append]
         rcases hmem with hmem | hmem
